@@ -24,6 +24,9 @@ CLAIMED = {
  "C11": ("field-flow coverage of the canonical sign-bytes builders and signing hashes + sign/verify sibling agreement (same canonicaliser callee) + guard-dominance on recovery and signature-value checks",
          "Decides that every field of the signed canonical vote/proposal comes from the message (flags the hard-coded vote type as an open finding), that all sign and verify sites hash the same canonical bytes, that VerifySignature/Vote.Verify bind the signer, and that transaction signing hashes cover all fields with chain-id and high-s rejection before recovery. Cryptographic strength is trusted, not decided.",
          "DESIGN.md §4 C11"),
+ "C12": ("sparse conditional constant propagation (int64 wrap-around + type-extreme facts) for dead numeric guards, operand-shape checks of the rotation arithmetic, verify-before-mutate ordering and guard-dominance in the update pipeline",
+         "Decides that no guard in the rotation/update arithmetic is constant (flags the dead max/min scan of the priority window as an open finding), that the increment/rescale/centre/newcomer formulas have the specified operands and constants, that the update pipeline checks everything before its first mutation, and that consensus state advances the next set by one increment per block. Does not decide equality with the specification over histories or fairness.",
+         "DESIGN.md §4 C12"),
  "C13": ("guard-dominance on part/proof/body checks + encoder/decoder sibling field-flow agreement + memo-key effect-set coverage + constant-table check of Merkle prefixes",
          "Decides that parts enter a part set only behind index, slot, proof and index-binding guards; that proof verification, Block.ValidateBasic and the proposal-block adoption path are complete checklists; that the header encoder covers every field and all hand-written codecs agree field by field; and that the validation memo key covers what the block hash does not. Does not decide byte-identical reassembly for arbitrary arrival orders.",
          "DESIGN.md §4 C13"),
